@@ -90,27 +90,27 @@ type Event struct {
 // Scenario is plain data describing one conversation. It is drawn completely
 // before anything runs, so it shrinks as one value and is its own replay file.
 type Scenario struct {
-	N        int        `json:"n"`
-	MaxChunk int        `json:"max_chunk,omitempty"`
+	N        int `json:"n"`
+	MaxChunk int `json:"max_chunk,omitempty"`
 	// MaxChunkSrv, if non-zero, is the server's max chunk size (-1: none);
 	// otherwise both ends use MaxChunk.
-	MaxChunkSrv int `json:"max_chunk_srv,omitempty"`
-	Client   TimeoutCfg `json:"client"`
-	Server   TimeoutCfg `json:"server"`
-	LatC2SMs int        `json:"lat_c2s_ms"`
-	LatS2CMs int        `json:"lat_s2c_ms"`
-	C2S      []Msg      `json:"c2s,omitempty"`
-	S2C      []Msg      `json:"s2c,omitempty"`
+	MaxChunkSrv int        `json:"max_chunk_srv,omitempty"`
+	Client      TimeoutCfg `json:"client"`
+	Server      TimeoutCfg `json:"server"`
+	LatC2SMs    int        `json:"lat_c2s_ms"`
+	LatS2CMs    int        `json:"lat_s2c_ms"`
+	C2S         []Msg      `json:"c2s,omitempty"`
+	S2C         []Msg      `json:"s2c,omitempty"`
 
 	FaultsC2S       []Decision `json:"faults_c2s,omitempty"`
 	FaultsS2C       []Decision `json:"faults_s2c,omitempty"`
 	FaultsFromStart bool       `json:"faults_from_start,omitempty"`
 	FaultUntilMs    int        `json:"fault_until_ms,omitempty"`
 
-	Events     []Event `json:"events,omitempty"`
-	DeadlineMs int     `json:"deadline_ms"`
-	QuiesceMs  int     `json:"quiesce_ms,omitempty"`
-	Gosched    int     `json:"gosched,omitempty"`
+	Events     []Event        `json:"events,omitempty"`
+	DeadlineMs int            `json:"deadline_ms"`
+	QuiesceMs  int            `json:"quiesce_ms,omitempty"`
+	Gosched    int            `json:"gosched,omitempty"`
 	Extra      map[string]int `json:"extra,omitempty"`
 }
 
@@ -133,17 +133,17 @@ func Payload(dir byte, idx int, n int) []byte {
 
 // DirState is what the harness observed on one direction.
 type DirState struct {
-	Name      string
-	Offered   [][]byte
-	SendDone  []int64 // virtual us at which Send(i) returned nil
-	SendStart []int64
-	SendErrAt int   // index of the first Send that failed (-1: none)
-	SendErr   error
-	SendErrT  int64
-	Recv      [][]byte
-	RecvAt    []int64
-	RecvErr   error
-	RecvErrT  int64
+	Name                         string
+	Offered                      [][]byte
+	SendDone                     []int64 // virtual us at which Send(i) returned nil
+	SendStart                    []int64
+	SendErrAt                    int // index of the first Send that failed (-1: none)
+	SendErr                      error
+	SendErrT                     int64
+	Recv                         [][]byte
+	RecvAt                       []int64
+	RecvErr                      error
+	RecvErrT                     int64
 	SenderExited, ReceiverExited bool
 }
 
@@ -154,8 +154,8 @@ type Env struct {
 	C2S   *Link
 	S2C   *Link
 
-	Client, Server       *gbn.GoBackNConn
-	ClientErr, ServerErr error
+	Client, Server             *gbn.GoBackNConn
+	ClientErr, ServerErr       error
 	ClientDoneAt, ServerDoneAt int64
 
 	ctxC, ctxS       context.Context
